@@ -1,6 +1,7 @@
 SPECIFICATION FairSpec
 CONSTANTS
   Trees <- AllTrees
+  AllowStop = FALSE
   Slots = 1
 PROPERTY RootCompletes
 PROPERTY AllDoneAtEnd
